@@ -136,7 +136,15 @@ fn check_a_order(bk: usize, style: Style, hist: &[Rev], container_base: bool, se
             return Err((true, "strict reader sees a different number of revisions".into()));
         }
     }
-    let doc = util::load(&bytes).map_err(|e| (false, e))?;
+    let loaded = util::load(&bytes);
+    // the other public loaders (short reads, IncrementalDocument, path-taking functions, load_filtered
+    // with a keep-all filter - a separate branch of the object-stream merge) must agree with load_mem
+    match util::entry_point_agreement(&bytes, &loaded, true) {
+        Ok(None) => {}
+        Ok(Some(m)) => return Err((false, format!("entry points disagree: {}", m))),
+        Err(e) => return Err((true, e)),
+    }
+    let doc = loaded.map_err(|e| (false, e))?;
     if let Some(m) = cmp::diff_objects(&expected, &doc.objects) {
         return Err((false, m));
     }
@@ -391,7 +399,13 @@ fn check_l(bk: usize, hist: &[Rev]) -> Result<(), (bool, String)> {
     let (bytes, model) = linearized_history(bk, hist);
     // self-check: the strict reader follows the same chain (its Prev rule "points before the current
     // section" does not hold for the front section, so only the object recovery is compared)
-    let doc = util::load(&bytes).map_err(|e| (false, e))?;
+    let loaded = util::load(&bytes);
+    match util::entry_point_agreement(&bytes, &loaded, true) {
+        Ok(None) => {}
+        Ok(Some(m)) => return Err((false, format!("entry points disagree: {}", m))),
+        Err(e) => return Err((true, e)),
+    }
+    let doc = loaded.map_err(|e| (false, e))?;
     if let Some(m) = cmp::diff_objects(&model, &doc.objects) {
         return Err((false, m));
     }
